@@ -2,23 +2,60 @@
 
 For each `try: with time_limit(..): BODY  except TimeoutException: HANDLER` (or `except Exception` where that is the
 handler that takes the timeout): the per-function state BODY mutates (`X[i] = ..`, `X[i].append(..)`), what was saved
-right before the `try` and what HANDLER restores, handlers inside BODY that would intercept the TimeoutException first,
-groups of consecutive appends to several shared lists (a fault between them leaves the lists misaligned) and the lists
-HANDLER truncates back.
+before the `try` and what HANDLER restores, handlers inside BODY (or inside helpers BODY calls) that would intercept the
+TimeoutException first, groups of appends to several shared lists in one statement list (a fault between them leaves the
+lists misaligned), the lists HANDLER cuts back to their common length, and any other tracked state HANDLER may change.
+
+The source is normalised first (harness/extractors/_norm_c15.py, rewrites N1..N8: canonical names of the three local
+lists, tuple/chained assignment, tuple aliases, unrolled loops over literal tuples, one level of helper inlining, the
+spellings of append / truncate / common length), so that a refactor which keeps the effects regenerates the same table
+(up to line numbers).  What is read, and how it fails closed:
+
+ * BODY is a may-analysis: every store / in-place change / append anywhere in it counts.  A tracked list that is handed
+   to something the translator cannot follow (aliased, passed to a call that is not a reader builtin or an inlined
+   helper, returned) is an ExtractError.
+ * HANDLER is a must-analysis for what it undoes: only unconditional statements `X[i] = saved` (saved = `X[i]` read
+   before the `try`, same index, neither the saved name, the index variable nor X[..] re-assigned in between or inside
+   BODY) count as restores, and only unconditional cuts of lists to the common length of exactly those lists (N7, N8) or to
+   their own length read before the `try` count as truncations.  A restore, truncation or `raise` under a condition,
+   or a cut to a length the translator cannot read, is an ExtractError.  Any other change of tracked state in HANDLER
+   (conditional or not) is listed in `handlerMutates`.
+ * the handler that takes the timeout is the first one naming TimeoutException, Exception, BaseException or nothing
+   (also inside a tuple of classes); if it re-raises unconditionally the block does not catch its timeout.
+ * stores through two subscripts (`inv_subs[i][j] = ..` in check_results, a list re-read from the library files) are not
+   per-function state of the blocks and are not tracked (as before).
 """
-import ast
+import ast, copy
 import extract
 from extract import ExtractError, lstr
+from extractors import _norm_c15 as N
 
 REL = "esr/generation/simplifier.py"
 FUNCS = ["sympy_simplify", "expand_or_factor", "check_results"]
 CATCH_ALL = {"Exception", "BaseException", None}
+TIMEOUT = "TimeoutException"
+
+
+def _hnames(h):
+    """class names an except clause lists (last attribute component); [None] for a bare except"""
+    if h.type is None:
+        return [None]
+    ts = h.type.elts if isinstance(h.type, ast.Tuple) else [h.type]
+    return [t.attr if isinstance(t, ast.Attribute) else ast.unparse(t) for t in ts]
 
 
 def _hname(h):
-    if h.type is None:
-        return None
-    return ast.unparse(h.type)
+    ns = _hnames(h)
+    if TIMEOUT in ns:
+        return TIMEOUT
+    for n in ns:
+        if n in CATCH_ALL:
+            return n
+    return ns[0]
+
+
+def _takes(h):
+    return any(n == TIMEOUT or n in CATCH_ALL for n in _hnames(h))
 
 
 def _is_time_limit_with(st):
@@ -26,21 +63,21 @@ def _is_time_limit_with(st):
                                             for it in st.items)
 
 
-def _sub_base(t):
-    """X[i] -> 'X' (for a subscript of a plain name)"""
-    if isinstance(t, ast.Subscript) and isinstance(t.value, ast.Name):
-        return t.value.id
-    return None
-
-
 def _reraises_timeout_first(tr):
+    """the first clause of this try that takes a TimeoutException re-raises it unconditionally"""
     for h in tr.handlers:
-        n = _hname(h)
-        if n == "TimeoutException":
+        if _takes(h):
             return any(isinstance(s, ast.Raise) and s.exc is None for s in h.body)
-        if n in CATCH_ALL:
-            return False
-    return False
+    return True     # no clause takes it
+
+
+def _swallowing_handlers(body):
+    """line numbers of except clauses in the statements that would take a TimeoutException and not pass it on"""
+    out = []
+    for t in ast.walk(ast.Module(body=body, type_ignores=[])):
+        if isinstance(t, ast.Try) and not _reraises_timeout_first(t):
+            out += [h.lineno for h in t.handlers if _takes(h)][:1]
+    return out
 
 
 def _blocks(fn):
@@ -50,8 +87,7 @@ def _blocks(fn):
         for k, st in enumerate(body):
             if isinstance(st, ast.Try) and any(_is_time_limit_with(s) for s in st.body):
                 w = [s for s in st.body if _is_time_limit_with(s)][0]
-                pre = body[max(0, k - 4):k]
-                out.append((st, w, pre))
+                out.append((st, w, body[:k]))
             for sub in ("body", "orelse", "finalbody"):
                 visit(getattr(st, sub, []) or [])
             for h in getattr(st, "handlers", []) or []:
@@ -71,86 +107,431 @@ def _blocks(fn):
     return sorted(out, key=lambda x: x[1].lineno)
 
 
+# ---------------------------------------------------------------------------------------------------------------
+# effects of statements
+# ---------------------------------------------------------------------------------------------------------------
+
+def _own_exprs(st):
+    """the expressions a statement evaluates itself (not those of statements nested in it)"""
+    if isinstance(st, (ast.If, ast.While)):
+        return [st.test]
+    if isinstance(st, (ast.For, ast.AsyncFor)):
+        return [st.iter]
+    if isinstance(st, (ast.With, ast.AsyncWith)):
+        return [it.context_expr for it in st.items]
+    if isinstance(st, ast.Try):
+        return []
+    if isinstance(st, ast.Match):
+        return [st.subject]
+    return [st]
+
+
+def _stmt_effects(st, local):
+    """effects of one statement's own expressions: list of (kind, name, node)
+    kinds: store X (X[idx] = ..), inplace X (X[idx] changed in place), append L, trunc L (node = lower bound), othermut L"""
+    eff = []
+    if isinstance(st, (ast.Assign, ast.AnnAssign, ast.AugAssign)):
+        se = N.self_extension(st)
+        if se is not None and se not in local:
+            eff.append(("append", se, st))
+        for t, v, aug in N.assign_pairs(st):
+            b = N.sub_base(t)
+            if b is not None:
+                sl = t.slice
+                if isinstance(sl, ast.Slice):
+                    if not aug and sl.upper is None and sl.step is None and sl.lower is not None \
+                            and isinstance(v, (ast.List, ast.Tuple)) and not v.elts:
+                        eff.append(("trunc", b, sl.lower))
+                    else:
+                        eff.append(("othermut", b, st))
+                else:
+                    eff.append(("store", b, (t, v)))
+                    if aug:
+                        eff.append(("inplace", b, st))
+            elif isinstance(t, ast.Name):
+                if aug and t.id not in local:
+                    eff.append(("aug", t.id, st))       # `L += ..`: an append if L is one of the shared lists
+            elif isinstance(t, ast.Attribute):
+                pass
+    if isinstance(st, ast.Delete):
+        for t in st.targets:
+            b = N.sub_base(t)
+            if b is not None:
+                sl = t.slice
+                if isinstance(sl, ast.Slice) and sl.upper is None and sl.step is None and sl.lower is not None:
+                    eff.append(("trunc", b, sl.lower))
+                else:
+                    eff.append(("othermut", b, st))
+    for e in _own_exprs(st):
+        for c in ast.walk(e):
+            if isinstance(c, ast.Call) and isinstance(c.func, ast.Attribute) and c.func.attr in N.MUTATORS:
+                r = c.func.value
+                b = N.sub_base(r)
+                if b is not None:
+                    eff.append(("inplace" if c.func.attr in N.MUT_APPEND else "inplace-other", b, c))
+                elif isinstance(r, ast.Name) and r.id not in local:
+                    eff.append(("append" if c.func.attr in N.MUT_APPEND else "othermut", r.id, c))
+    return eff
+
+
+def _children(st):
+    out = []
+    for f in ("body", "orelse", "finalbody"):
+        if isinstance(getattr(st, f, None), list):
+            out.append(getattr(st, f))
+    for h in getattr(st, "handlers", []) or []:
+        out.append(h.body)
+    for c in getattr(st, "cases", []) or []:
+        out.append(c.body)
+    return out
+
+
+SIMPLE = (ast.Assign, ast.AnnAssign, ast.AugAssign, ast.Expr, ast.Pass, ast.Delete, ast.Import, ast.ImportFrom, ast.Assert)
+
+
+def _scan_body(body, local, shared_hint):
+    """may-analysis of a with-body: (mutates, inplace?, append groups, every effect)"""
+    mutates, groups, alleff = set(), [], []
+    inplace = [False]
+
+    def is_append(kind, name):
+        return kind == "append" or (kind == "aug" and name in shared_hint)
+
+    def scan(stmts):
+        run = []
+
+        def flush():
+            if len(set(run)) >= 2:
+                groups.append(list(run))
+            del run[:]
+
+        for s in stmts:
+            if isinstance(s, (ast.FunctionDef, ast.AsyncFunctionDef, ast.ClassDef, ast.Global, ast.Nonlocal)):
+                raise ExtractError("line %d: %s inside a time-limited block" % (s.lineno, type(s).__name__))
+            eff = _stmt_effects(s, local)
+            alleff.extend(eff)
+            for kind, name, _ in eff:
+                if kind in ("store", "inplace", "inplace-other"):
+                    mutates.add(name)
+                if kind in ("inplace", "inplace-other"):
+                    inplace[0] = True
+            apps = [name for kind, name, _ in eff if is_append(kind, name)]
+            if isinstance(s, SIMPLE):
+                run.extend(apps)
+            else:
+                # compound statement or transfer of control: the record being written ends here
+                run.extend(apps)
+                flush()
+                for ch in _children(s):
+                    scan(ch)
+        flush()
+
+    scan(body)
+    return mutates, inplace[0], groups, alleff
+
+
+def _scan_saves(pre, defs):
+    """what the statements before the `try` leave saved: name -> ('elem', X, idx text) | ('tuple', [(X, idx), ..]) | ('len', L)"""
+    saved = {}
+
+    def elem(v):
+        b = N.sub_base(v)
+        if b is not None and not isinstance(v.slice, ast.Slice):
+            return (b, ast.unparse(v.slice))
+        return None
+
+    def forget_name(n):
+        saved.pop(n, None)
+        for k in [k for k, e in saved.items() if (e[0] == "elem" and n in _names_in(e[2])) or
+                  (e[0] == "tuple" and any(n in _names_in(i) for _, i in e[1]))]:
+            del saved[k]
+
+    def forget_base(b):
+        for k in [k for k, e in saved.items() if (e[0] == "elem" and e[1] == b) or (e[0] == "tuple" and any(x == b for x, _ in e[1]))
+                  or (e[0] == "len" and e[1] == b)]:
+            del saved[k]
+
+    for st in pre:
+        # state changed by this statement (anywhere in it) invalidates what was read from it
+        for n in ast.walk(st):
+            if isinstance(n, (ast.Subscript, ast.Attribute)) and isinstance(n.ctx, (ast.Store, ast.Del)):
+                r = N.root_name(n)
+                if r:
+                    forget_base(r)
+            if isinstance(n, ast.AugAssign):
+                r = N.root_name(n.target)
+                if r:
+                    forget_base(r)
+            if isinstance(n, ast.Call):
+                if isinstance(n.func, ast.Attribute) and n.func.attr in N.MUTATORS:
+                    r = N.root_name(n.func.value)
+                    if r:
+                        forget_base(r)
+                if isinstance(n.func, ast.Name) and n.func.id in defs and N.may_change_state(defs[n.func.id], defs):
+                    for a in list(n.args) + [k.value for k in n.keywords]:
+                        for x in ast.walk(a):
+                            if isinstance(x, ast.Name):
+                                forget_base(x.id)
+        for n in N.stores(st):
+            forget_name(n)
+            forget_base(n)
+        if isinstance(st, (ast.Assign, ast.AnnAssign)):
+            for t, v, _ in N.assign_pairs(st):
+                if not isinstance(t, ast.Name) or v is None:
+                    continue
+                e = elem(v)
+                if e is not None:
+                    saved[t.id] = ("elem", e[0], e[1])
+                elif isinstance(v, (ast.Tuple, ast.List)) and v.elts and all(elem(x) is not None for x in v.elts):
+                    saved[t.id] = ("tuple", [elem(x) for x in v.elts])
+                elif N._len_of(v) is not None:
+                    saved[t.id] = ("len", N._len_of(v))
+    return saved
+
+
+def _names_in(text):
+    try:
+        return {n.id for n in ast.walk(ast.parse(text, mode="eval")) if isinstance(n, ast.Name)}
+    except SyntaxError:
+        return set()
+
+
+def _all_effects(stmts, local):
+    out = []
+    for s in stmts:
+        out += _stmt_effects(s, local)
+        for ch in _children(s):
+            out += _all_effects(ch, local)
+    return out
+
+
+def _scan_handler(body, saved, tracked, hlocal):
+    """must-analysis of the handler that takes the timeout"""
+    restored, truncs, other = set(), {}, set()
+    reraises = False
+    lens = {}                    # handler-local name -> set of lists whose common length it holds
+    for s in body:
+        wp = N.while_pop_trunc(s)
+        if wp is not None:
+            effs = [("trunc", wp[0], wp[1])]
+        elif isinstance(s, SIMPLE):
+            effs = _stmt_effects(s, hlocal)
+        elif isinstance(s, ast.Raise):
+            reraises = True
+            break
+        elif isinstance(s, (ast.Return, ast.Break, ast.Continue)):
+            break
+        else:
+            # a compound statement: nothing in it may be counted as done; a restore / cut / raise in it cannot be decided
+            for kind, name, node in _all_effects([s], hlocal):
+                if name not in tracked:
+                    continue
+                if kind == "trunc" or (kind == "store" and isinstance(node[1], ast.Name) and node[1].id in saved):
+                    raise ExtractError("line %d: the timeout handler restores or cuts %s only under a condition" % (s.lineno, name))
+                other.add(name)
+            if any(isinstance(n, ast.Raise) for n in ast.walk(s)):
+                raise ExtractError("line %d: the timeout handler raises under a condition" % s.lineno)
+            continue
+        # handler-local lengths
+        if isinstance(s, (ast.Assign, ast.AnnAssign)):
+            for t, v, _ in N.assign_pairs(s):
+                if isinstance(t, ast.Name):
+                    lens.pop(t.id, None)
+                    cl = N.common_length_of(v) if v is not None else None
+                    if cl is not None:
+                        lens[t.id] = cl
+            # `X[i], Y[i] = saved_pair`
+            if isinstance(s, ast.Assign) and len(s.targets) == 1 and isinstance(s.targets[0], (ast.Tuple, ast.List)) \
+                    and isinstance(s.value, ast.Name) and saved.get(s.value.id, ("",))[0] == "tuple":
+                pairs = saved[s.value.id][1]
+                ts = s.targets[0].elts
+                if len(ts) == len(pairs) and all(N.sub_base(t) == b and ast.unparse(t.slice) == i for t, (b, i) in zip(ts, pairs)):
+                    restored.update(b for b, _ in pairs)
+                    continue
+        for kind, name, node in effs:
+            if kind == "store":
+                t, v = node
+                e = saved.get(v.id) if isinstance(v, ast.Name) else None
+                if e is not None and e[0] == "elem" and e[1] == name and e[2] == ast.unparse(t.slice):
+                    restored.add(name)
+                elif name in tracked:
+                    other.add(name)
+            elif kind == "trunc":
+                key = None
+                if isinstance(node, ast.Name) and node.id in lens:
+                    key = frozenset(lens[node.id])
+                elif isinstance(node, ast.Name) and saved.get(node.id, ("",))[0] == "len" and saved[node.id][1] == name:
+                    key = frozenset([name])
+                else:
+                    cl = N.common_length_of(node)
+                    if cl is not None:
+                        key = frozenset(cl)
+                if key is None:
+                    if name in tracked:
+                        raise ExtractError("line %d: cannot read the length %s is cut back to (%s)" % (s.lineno, name, ast.unparse(node)[:60]))
+                    continue
+                truncs.setdefault(key, set()).add(name)
+            elif name in tracked:
+                other.add(name)
+    good = set()
+    for key, names in truncs.items():
+        if set(key) == names:
+            good |= names            # cut to the common length of exactly these lists
+        else:
+            other |= (names & tracked) or names
+    return restored, good, other, reraises
+
+
+def _escapes(stmts, tracked, what):
+    """a tracked list used where the translator cannot follow it"""
+    parent = {}
+    for top in stmts:
+        for n in ast.walk(top):
+            for c in ast.iter_child_nodes(n):
+                parent[c] = n
+    for top in stmts:
+        for n in ast.walk(top):
+            if not (isinstance(n, ast.Name) and n.id in tracked and isinstance(n.ctx, ast.Load)):
+                continue
+            p = parent.get(n)
+            ok = False
+            if isinstance(p, (ast.Subscript, ast.Attribute)) and p.value is n:
+                ok = True
+            elif isinstance(p, ast.Starred):
+                ok = False
+            elif isinstance(p, ast.Call):
+                ok = (isinstance(p.func, ast.Name) and p.func.id in N.READERS) or getattr(p, "_inlined", False)
+            elif isinstance(p, (ast.Compare, ast.BoolOp)) or (isinstance(p, ast.UnaryOp) and isinstance(p.op, ast.Not)):
+                ok = True
+            elif isinstance(p, (ast.If, ast.While, ast.IfExp)) and p.test is n:
+                ok = True
+            elif isinstance(p, (ast.For, ast.comprehension)) and p.iter is n:
+                ok = True
+            elif isinstance(p, (ast.Tuple, ast.List)):
+                g = parent.get(p)
+                ok = (isinstance(g, (ast.For, ast.comprehension)) and g.iter is p) or \
+                     (isinstance(g, ast.Call) and isinstance(g.func, ast.Name) and g.func.id in N.READERS)
+            elif isinstance(p, ast.BinOp) and isinstance(p.op, ast.Add) and isinstance(parent.get(p), ast.Assign) \
+                    and N.self_extension(parent.get(p)) == n.id:
+                ok = True
+            elif isinstance(p, ast.AugAssign):
+                ok = False
+            if not ok:
+                raise ExtractError("line %d: the list %s is used in %s in a way the translator cannot follow (%s)" % (
+                    getattr(n, "lineno", 0), n.id, what, ast.unparse(p)[:60] if p is not None else "?"))
+
+
 def analyse(stage):
     tree = extract._parse(stage, REL)
     res = []
     for name in FUNCS:
         fn = extract.find_def(tree, name)
+        fn = N.rename_locals(fn, N.canonical_names(tree, fn))                       # N1
+        defs = N.local_defs(tree, fn)
+        canon = set()
+        mc = [n for n in tree.body if isinstance(n, ast.FunctionDef) and n.name == "make_changes"]
+        if mc and any(isinstance(c, ast.Call) and ast.unparse(c.func).endswith("make_changes") for c in ast.walk(fn)):
+            canon = {a.arg for a in mc[0].args.args[3:6]}
+        blocks = []
         for tr, w, pre in _blocks(fn):
-            hs = [_hname(h) for h in tr.handlers]
             taking = None
             for h in tr.handlers:
-                if _hname(h) == "TimeoutException" or _hname(h) in CATCH_ALL:
-                    taking = h; break
-            catches = taking is not None
-            restores, truncs = [], []
+                if _takes(h):
+                    taking = h
+                    break
+            inl = N.Inliner(defs, skip=("time_limit", name))
+            body = N.unroll(inl.run(w.body))                                          # N5, N3, N4
+            hbody = N.unroll(inl.run(taking.body, strict=True)) if taking is not None else []
+            blocks.append(dict(tr=tr, w=w, pre=pre, taking=taking, body=body, hbody=hbody))
+        # lists that are appended to / cut somewhere in the blocks of this function
+        shared = set()
+        for b in blocks:
+            local = set(N.stores(b["body"], skip_aug=True))
+            for kind, nm, _ in _all_effects(b["body"], local):
+                if kind == "append":
+                    shared.add(nm)
+            for kind, nm, _ in _all_effects(b["hbody"], set()):
+                if kind == "trunc":
+                    shared.add(nm)
+        tracked = set(canon) | shared
+        scanned = []
+        for b in blocks:
+            local = set(N.stores(b["body"], skip_aug=True))
+            mutates, inplace, groups, alleff = _scan_body(b["body"], local, shared - local)
+            tracked |= mutates
+            scanned.append((local, mutates, inplace, groups))
+        for b, (local, mutates, inplace, groups) in zip(blocks, scanned):
+            tr, w, taking = b["tr"], b["w"], b["taking"]
+            saved = _scan_saves(b["pre"], defs)
+            # a snapshot name, or the variable it is indexed by, that BODY re-assigns is not the value before the try
+            bst = set(N.stores(w.body))
+            for k in [k for k, e in saved.items() if k in bst or
+                      (e[0] == "elem" and _names_in(e[2]) & bst) or (e[0] == "tuple" and any(_names_in(i) & bst for _, i in e[1]))]:
+                del saved[k]
+            restored, truncs, other, reraises = set(), set(), set(), False
             if taking is not None:
-                for s in ast.walk(ast.Module(body=taking.body, type_ignores=[])):
-                    if isinstance(s, ast.Assign):
-                        for t in s.targets:
-                            b = _sub_base(t)
-                            if b and isinstance(s.value, ast.Name):
-                                restores.append((b, s.value.id))
-                    if isinstance(s, ast.Delete):
-                        for t in s.targets:
-                            b = _sub_base(t)
-                            if b and isinstance(t.slice, ast.Slice) and t.slice.upper is None:
-                                truncs.append(b)
-            saved = {}
-            for s in pre:
-                if isinstance(s, ast.Assign) and isinstance(s.targets[0], ast.Name):
-                    b = _sub_base(s.value)
-                    if b:
-                        saved[s.targets[0].id] = b
-            restored = sorted({b for b, src in restores if saved.get(src) == b})
-            mutates, inplace = set(), False
-            groups = []
-
-            def scan(body):
-                nonlocal inplace
-                run = []
-                for s in body:
-                    nm = None
-                    if isinstance(s, ast.Expr) and isinstance(s.value, ast.Call) and isinstance(s.value.func, ast.Attribute) and s.value.func.attr == "append":
-                        tgt = s.value.func.value
-                        if isinstance(tgt, ast.Name):
-                            nm = tgt.id
-                        else:
-                            b = _sub_base(tgt)
-                            if b:
-                                mutates.add(b); inplace = True
-                    if nm is not None:
-                        run.append(nm)
-                    else:
-                        if len(set(run)) >= 2:
-                            groups.append(run)
-                        run = []
-                    if isinstance(s, ast.Assign):
-                        for t in s.targets:
-                            b = _sub_base(t)
-                            if b:
-                                mutates.add(b)
-                    for sub in ("body", "orelse", "finalbody"):
-                        if getattr(s, sub, None):
-                            scan(getattr(s, sub))
-                    for h in getattr(s, "handlers", []) or []:
-                        scan(h.body)
-                if len(set(run)) >= 2:
-                    groups.append(run)
-
-            scan(w.body)
-            # per-function state only (indexed by the loop variable): ignore locals like all_subs[...] if any
-            inter = []
-            for t in ast.walk(ast.Module(body=w.body, type_ignores=[])):
-                if isinstance(t, ast.Try):
-                    if any(_hname(h) in CATCH_ALL for h in t.handlers) and not _reraises_timeout_first(t):
-                        inter += [h.lineno for h in t.handlers if _hname(h) in CATCH_ALL]
+                hlocal = set(N.stores(b["hbody"], skip_aug=True)) - tracked
+                restored, truncs, other, reraises = _scan_handler(b["hbody"], saved, tracked, hlocal)
+                _escapes(b["hbody"], tracked - local, "the handler of the block at line %d" % w.lineno)
+            _escapes(b["body"], tracked - local, "the time-limited block at line %d" % w.lineno)
+            catches = taking is not None and not reraises
+            # handlers between the raise and the restoring handler: in BODY itself and in every local helper BODY reaches
+            inter = _swallowing_handlers(w.body)
+            seen, todo = set(), [c.func.id for c in ast.walk(ast.Module(body=w.body, type_ignores=[]))
+                                 if isinstance(c, ast.Call) and isinstance(c.func, ast.Name) and c.func.id in defs]
+            while todo:
+                f = todo.pop()
+                if f in seen or f in ("time_limit", name):
+                    continue
+                seen.add(f)
+                inter += _swallowing_handlers(defs[f].body)
+                todo += [c.func.id for c in ast.walk(defs[f]) if isinstance(c, ast.Call) and isinstance(c.func, ast.Name) and c.func.id in defs]
+            savedb = set()
+            for e in saved.values():
+                if e[0] == "elem":
+                    savedb.add(e[1])
+                elif e[0] == "tuple":
+                    savedb.update(x for x, _ in e[1])
             res.append(dict(fn=name, line=w.lineno, catches=catches, handler=_hname(taking) if taking is not None else "-",
-                            mutates=sorted(mutates), restores=restored, saved=sorted(set(saved.values())), inplace=inplace,
-                            interceptors=inter, groups=groups, truncates=sorted(set(truncs))))
+                            mutates=sorted(mutates), restores=sorted(restored), saved=sorted(savedb), inplace=inplace,
+                            interceptors=sorted(set(inter)), groups=groups, truncates=sorted(truncs), hmut=sorted(other)))
     if not res:
         raise ExtractError("no time_limit block found in simplifier.py")
     return res
+
+
+def mutation_lines(stage):
+    """source lines (of the anchored functions and of the state-changing local helpers they call) that record something:
+    an append to a bare list, an in-place change of `X[i]`, a store to an `X[i]` that is elsewhere changed in place (the
+    pending chain), or a call of such a helper.  Used by props/c15.py to inject around them first; a hint, not part of the table."""
+    tree = extract._parse(stage, REL)
+    lines = set()
+    for name in FUNCS:
+        try:
+            fn = extract.find_def(tree, name)
+        except ExtractError:
+            continue
+        defs = N.local_defs(tree, fn)
+        helpers = {}
+        for c in ast.walk(fn):
+            if isinstance(c, ast.Call) and isinstance(c.func, ast.Name) and c.func.id in defs and c.func.id not in FUNCS + ["time_limit"]:
+                try:
+                    if N.may_change_state(defs[c.func.id], defs):
+                        helpers[c.func.id] = defs[c.func.id]
+                        lines.add(c.lineno)
+                except Exception:
+                    pass
+        effs = []
+        for f in [fn] + list(helpers.values()):
+            for st in ast.walk(f):
+                if isinstance(st, ast.stmt) and not isinstance(st, (ast.FunctionDef, ast.ClassDef)):
+                    try:
+                        effs += [(k, nm, st.lineno) for k, nm, _ in _stmt_effects(st, set())]
+                    except Exception:
+                        pass
+        chained = {nm for k, nm, _ in effs if k in ("inplace", "inplace-other")}
+        lines |= {ln for k, nm, ln in effs if k in ("inplace", "inplace-other", "append") or (k == "store" and nm in chained)}
+    return lines
 
 
 def _ls(xs):
@@ -163,12 +544,12 @@ def gen(stage):
     t = extract.header("Fault", [REL])
     t += ("structure Block where\n  fn : String\n  line : Nat\n  catchesTimeout : Bool\n  handler : String\n  mutates : List String\n"
           "  restores : List String\n  savedBefore : List String\n  invInPlace : Bool\n  interceptors : List Nat\n"
-          "  appendGroups : List (List String)\n  truncates : List String\n  deriving Repr, DecidableEq\n\n"
+          "  appendGroups : List (List String)\n  truncates : List String\n  handlerMutates : List String\n  deriving Repr, DecidableEq\n\n"
           "/-- every `with time_limit` block of sympy_simplify / expand_or_factor / check_results -/\ndef blocks : List Block := [\n")
-    t += ",\n".join("  ⟨%s, %d, %s, %s, %s, %s, %s, %s, [%s], [%s], %s⟩" % (
+    t += ",\n".join("  ⟨%s, %d, %s, %s, %s, %s, %s, %s, [%s], [%s], %s, %s⟩" % (
         lstr(b["fn"]), b["line"], "true" if b["catches"] else "false", lstr(b["handler"] or "bare"), _ls(b["mutates"]), _ls(b["restores"]),
         _ls(b["saved"]), "true" if b["inplace"] else "false", ", ".join(map(str, b["interceptors"])),
-        ", ".join(_ls(g) for g in b["groups"]), _ls(b["truncates"])) for b in bl)
+        ", ".join(_ls(g) for g in b["groups"]), _ls(b["truncates"]), _ls(b["hmut"])) for b in bl)
     t += "\n  ]\n"
     t += extract.footer("Fault")
     return t
